@@ -7,6 +7,7 @@ rc_all=0
 for id in $ids; do
   out=$(./check $id --tier $tier 2>&1); rc=$?
   echo "$id rc=$rc $(echo "$out" | grep -v KNOWN-FINDING | tail -1 | cut -c1-200)"
+  if [ "$tier" = thorough ]; then mkdir -p evidence_thorough; cp evidence/$id.json evidence_thorough/$id.json 2>/dev/null; fi
   [ $rc -ne 0 ] && rc_all=1
 done
 exit $rc_all
